@@ -708,11 +708,11 @@ def run(prog, rep, tier):
         'BaseComponent.is_canceled hands on CANCELED exactly when it returns '
         'True',
     ]
-    r07_1(prog, rep)
-    r07_2(prog, rep)
-    r07_3(prog, rep)
-    r07_4(prog, rep)
-    r07_5(prog, rep)
+    rep.attempt(r07_1, prog, rep)
+    rep.attempt(r07_2, prog, rep)
+    rep.attempt(r07_3, prog, rep)
+    rep.attempt(r07_4, prog, rep)
+    rep.attempt(r07_5, prog, rep)
 
 
 # ------------------------------------------------------------------------------
